@@ -1,4 +1,5 @@
 # C16 - the C and C++ wrappers are transparent
+import json
 import os
 import random
 import shutil
@@ -106,6 +107,21 @@ def run(chk):
                              cs.raw("cc3 %d %s %d" % (slot, xyz, c), "let () = out_str \"skip\"", {"kind": "cc3", "world": wj, "pos": pos, "depth": d, "c": c})))
                 plan.append(("eq", cs.raw("c3 %d %s %d" % (100000 + slot, xyz, c), "let () = out_str \"skip\"", {"kind": "c3", "world": wj}),
                              cs.raw("wc3 %d %s %d" % (slot, xyz, c), "let () = out_str \"skip\"", {"kind": "wc3", "world": wj, "pos": pos, "depth": d, "c": c})))
+        # sibling requests one after the other on the same thread: lists of equal length that differ in exactly one field of one
+        # entry (number of grains up and down, composition index, property kind), through size / 3-D / 2-D of the C interface
+        pos, d = query3d(rng, wj, sph)
+        xyz = "%s %s %s %s" % (fhex(pos[0]), fhex(pos[1]), fhex(pos[2]), fhex(d))
+        c0, k0 = rng.randrange(3), rng.randint(1, 3)
+        base_ps = [[1, 0, 0], [3, c0, k0], [5, 0, 0]]
+        sibs = [base_ps, [[1, 0, 0], [3, c0, k0 + 2], [5, 0, 0]], [[1, 0, 0], [3, c0, k0], [5, 0, 0]], [[1, 0, 0], [3, c0 + 1, k0], [5, 0, 0]],
+                [[1, 0, 0], [2, c0 + 1, k0], [5, 0, 0]], [[1, 0, 0], [3, c0 + 1, max(1, k0 - 1)], [5, 0, 0]], [[4, 0, 0], [3, c0 + 1, max(1, k0 - 1)], [5, 0, 0]]]
+        for ps in sibs:
+            pt = props_tok(ps)
+            plan.append(("eq", cs.raw("size %d %s" % (slot, pt), "let () = out_str \"skip\"", {"kind": "size"}),
+                         cs.raw("csize %d %s" % (slot, pt), "let () = out_str \"skip\"", {"kind": "csize", "props": ps, "world": wj})))
+            plan.append(("eq", cs.raw("p3 %d %s %s" % (slot, xyz, pt), "let () = out_str \"skip\"", {"kind": "p3", "world": wj, "props": ps, "pos": pos, "depth": d}),
+                         cs.raw("cp3 %d %s %s" % (slot, xyz, pt), "let () = out_str \"skip\"", {"kind": "cp3", "world": wj, "props": ps, "pos": pos, "depth": d,
+                                                                                              "note": "sibling requests in sequence: " + json.dumps(sibs)})))
         cs.raw("cfree %d" % slot, "let () = out_str \"skip\"", {"kind": "free"})
     # run in a scratch working directory: a wrongly marshalled output directory then writes there, not into /verif
     cwd = os.path.join(base, "cwd")
